@@ -157,6 +157,27 @@ def _k_eras(c) -> CaseInfo:
         for yoe in (cal.get_min_year_of_era(era), cal.get_max_year_of_era(era)):
             ay = cal.get_absolute_year(yoe, era)
             need(cal.min_year <= ay <= cal.max_year, f"era-bounds-outside-years/{cid}", f"{era} yoe {yoe} -> {ay}")
+    # an era the calendar does not list is a field value outside its range: rejected, never mapped
+    # (two of the seven eras are both abbreviated "AM": identity, not the name, is what the calendar lists)
+    from pyoda_time import LocalDate, YearMonth
+    from pyoda_time.calendars import Era
+
+    for nm in ("common", "before_common", "anno_martyrum", "anno_mundi", "anno_hegirae", "anno_persico", "bahai"):
+        foreign = getattr(Era, nm)
+        if any(foreign is e for e in eras):
+            continue
+        for what, fn in (
+            ("get_absolute_year", lambda: cal.get_absolute_year(1, foreign)),
+            ("get_min_year_of_era", lambda: cal.get_min_year_of_era(foreign)),
+            ("get_max_year_of_era", lambda: cal.get_max_year_of_era(foreign)),
+            ("LocalDate(era=)", lambda: LocalDate(1, 1, 1, cal, foreign)),
+            ("YearMonth(era=)", lambda: YearMonth(era=foreign, year_of_era=1, month=1, calendar=cal)),
+        ):
+            try:
+                r = fn()
+            except ValueError:
+                continue
+            raise Mismatch(f"foreign-era-accepted/{cid}/{what}", f"era {nm} ({foreign}) -> {r!r:.60}")
     return CaseInfo(True, "eras")
 
 
